@@ -4,6 +4,7 @@ import (
 	"bufio"
 	"bytes"
 	"encoding/json"
+	"errors"
 	"flag"
 	"fmt"
 	"io"
@@ -291,6 +292,8 @@ func (e event) tok() string {
 		return fmt.Sprintf("S %d %d %d", e.role, e.leader, e.leaderID)
 	case 'D':
 		return "RD"
+	case 'K':
+		return "K " + fc
 	}
 	return string(e.kind)
 }
@@ -343,6 +346,19 @@ func (w *world) apply(e event) string {
 			w.r.VerifSetLeader(raft.ServerAddress(strconv.Itoa(e.leader)), raft.ServerID(strconv.Itoa(e.leaderID)))
 		}
 		return w.obs(false, "n")
+	}
+	if e.kind == 'K' { // takeSnapshot, as the snapshot goroutine runs it
+		w.c.reset(e.failAt, e.crashAt)
+		_, err := w.r.VerifTakeSnapshot()
+		if errors.Is(err, raft.ErrVerifPanicked) {
+			ops := w.c.ops
+			w.stop()
+			_ = w.start()
+			w.c.ops = ops
+			return w.obs(true, "n")
+		}
+		synctest.Wait()
+		return w.obs(false, fmt.Sprintf("s %d", b2i(err == nil)))
 	}
 	ch := make(chan raft.RPCResponse, 1)
 	rpc := raft.RPC{RespChan: ch}
@@ -692,8 +708,17 @@ func (g *gen) event() event {
 			e.failAt = -1 // later write errors of this handler are only logged; the model does not follow them
 		}
 		return e
-	case x < 88:
+	case x < 84:
 		return event{kind: 'R', failAt: -1, crashAt: -1}
+	case x < 88:
+		e := event{kind: 'K', failAt: -1, crashAt: -1}
+		switch r.Intn(8) {
+		case 0:
+			e.failAt = r.Intn(2)
+		case 1:
+			e.crashAt = r.Intn(3)
+		}
+		return e
 	case x < 92:
 		return event{kind: 'T', failAt: -1, crashAt: -1}
 	default:
